@@ -1,5 +1,6 @@
 From Coq Require Import Permutation.
 From Ragc Require Import Mach Consts_segment Consts_registry GroupStore Registry Registry_proofs.
+From Ragc Require Segment Pipeline.
 Open Scope N_scope.
 (* C01R (sub-check of C01, lossless round trip): the GROUP REGISTRY of the streaming compressor - which group id a stored
    segment goes to - is inside the model (model/Registry.v: classify_raw_segments_at_barrier, BufferedSegPart::process_new,
@@ -233,6 +234,36 @@ Theorem group_of_is_a_function : forall stored : list (N * placed), NoDup (map s
   forall lbl p, In (lbl, p) stored -> grp_of stored p = lbl.
 Proof. exact Registry_proofs.group_of_is_a_function_proof. Qed.
 Print Assumptions group_of_is_a_function.
+
+(* with distinct contig names over the whole run (push rejects a repeated name within a sample; samples are distinct): no
+   segment identity (sample, contig, part) is stored twice, hence the REAL assignment of the whole run is the function
+   grp_of (concat outs) *)
+Theorem stored_ids_distinct : forall cf ord rounds r outs lgs, run_ok cf ord rounds r outs lgs ->
+  NoDup (map (fun c => (c_sample c, c_name c)) (concat rounds)) ->
+  NoDup (map (fun x => (p_sample (snd x), p_name (snd x), p_part (snd x))) (concat outs)) /\
+  forall lbl p, In (lbl, p) (concat outs) -> grp_of (concat outs) p = lbl.
+Proof. exact Registry_proofs.stored_ids_distinct_proof. Qed.
+Print Assumptions stored_ids_distinct.
+
+(* the registry's step and Pipeline.v (C01, contig level) number and orient the pieces of a raw segment alike: for every
+   split position there is a Pipeline decision (Plain / Split at that position / AssignL / AssignR) under which
+   Pipeline.seg_pieces yields the registry's (seg_part_no, is_rev_comp) per piece, in order, and the same increment - so
+   C01's [grp i part] and the registry's stored assignment are indexed by the same part numbers *)
+Theorem parts_agree_with_pipeline : forall cf sn cn (s : Segment.segment) o st (part k : nat),
+  let res := classify_step cf sn cn
+               ({| rs_front := Segment.sfront s; rs_back := Segment.sback s; rs_fdir := Segment.sfdir s; rs_bdir := Segment.sbdir s |}, o)
+               (st, N.of_nat part) in
+  exists new, cs_log (fst res) = new ++ cs_log st /\
+  forall pos : nat, exists d : Pipeline.decision,
+    match d with Pipeline.Split _ p _ _ => p = pos | _ => True end /\
+    snd res = N.of_nat (part + Pipeline.part_incr d) /\
+    match Pipeline.seg_pieces k s d part with
+    | Ok ps => map (fun pc => (N.of_nat (Pipeline.p_part pc), Pipeline.p_rc pc)) ps
+               = map (fun e : placed * key * N => (p_part (fst (fst e)), p_rc (fst (fst e)))) (rev new)
+    | _ => True
+    end.
+Proof. exact Registry_proofs.parts_agree_with_pipeline_proof. Qed.
+Print Assumptions parts_agree_with_pipeline.
 
 (* ---- non-vacuity: three rounds.  Round 1: a contig with segments (MISSING, 50) (50, 90) (90, MISSING) and an orphan;
    round 2: the reverse-complemented middle segment (90, 50), two new keys (50, 70) (70, 110), a palindromic pair (70, 70),
